@@ -438,6 +438,14 @@ def run_impl(case):
         model.insts[j].Q = q
     rel = Rel(model, case)
     obs, fails = [], []
+    # the pools by the statement: the live instances of each class in CREATION order (not read from the implementation)
+    dead = set(op[1] for op in case['ops'] if op[0] == 'delete')
+    want_pools = [[j for j in range(len(model.insts)) if rel.kind[j] == k and j not in dead]
+                  for k in range(len(schema['classes']))]
+    if [list(p) for p in rel.pools] != want_pools:
+        fails.append({'sig': 'pool-order', 'what': 'the instance pools are %r, the live instances in creation order are %r (shape %s, '
+                      'history %s)' % ([list(p) for p in rel.pools], want_pools, case['shape'], case['ops'])})
+        rel.pools = want_pools
     # both construction routes: no instance keeps an own copy of a referential value, the identifiers are registered
     for (i, key, v) in model.ref_copies():
         fails.append({'sig': 'referential-copy-in-dict', 'what': 'instance %d keeps %r = %r in its own dictionary although the '
